@@ -2,7 +2,8 @@
    return exactly the matching subsequence." *)
 From Coq Require Import List NArith ZArith Bool Lia.
 From Verif Require Import Common.GoInt Gen.Sequence GenProofs.SequenceProofs.
-From Verif Require Import Chain.Model Chain.Proofs Chain.ProofsWalk Chain.Examples LogDB.Model LogDB.Proofs.
+From Verif Require Import Chain.Model Chain.Proofs Chain.ProofsWalk Chain.ProofsSys Chain.ProofsPath Chain.Examples
+  LogDB.Model LogDB.Proofs LogDB.ProofsCanon.
 Import ListNotations.
 Open Scope N_scope.
 
@@ -47,8 +48,7 @@ Theorem filter_is_subsequence_transfers db cs o out : filter_transfers db cs o =
     sublist out full.
 Proof. exact (run_filter_spec tr_seq (any_crit tr_match cs) o (db_transfers db) out). Qed.
 
-(* 3. PARTIAL for "the table equals the logs of the canonical chain".  Proved: the table-level facts the
-      reorganisation argument rests on — INSERT OR IGNORE keeps the table sorted, never drops an existing row,
+(* 3. the table-level facts the reorganisation argument rests on — INSERT OR IGNORE keeps the table sorted, never drops an existing row,
       silently ignores a row whose position key is present (this is where a missed truncate would keep a stale row),
       really inserts a row whose key is absent; Truncate(n) keeps exactly the rows below block n, hence every row
       written afterwards for a block >= n is inserted. *)
@@ -70,29 +70,24 @@ Proof.
   intros T Hb E Ex. split; [apply (truncate_spec n db db' T) | exact (no_stale_after_truncate n db db' b t l s x T Hb E Ex)].
 Qed.
 
-(* The full statement, NOT yet proved: along every import history (blocks added through add_block; those that
-   become best first go through write_logs against the previous best), the event table is the concatenation, in
-   chain order, of what write_block produces for each block of the canonical chain (same for transfers).  Missing:
-   the decomposition path(new) = path(fork) ++ exclude(new, old) on the chain side and the lemma that writing a
-   block above every stored key appends its rows. *)
-Fixpoint rows_of_path (r : repo) (path_desc : list N) : option logdb :=
-  match path_desc with
-  | [] => Some empty_db
-  | id :: older => match rows_of_path r older, get_block r id with
-                   | Some db, Some (_, b) => write_block b db
-                   | _, _ => None
-                   end
-  end.
-Inductive imported (g gp tag : N) : repo -> logdb -> Prop :=
-| imp_init : imported g gp tag (init_repo g gp tag) empty_db
-| imp_side r db b conf r' : imported g gp tag r db -> valid_add r b conf -> add_block r b conf false = Some r' ->
-                            imported g gp tag r' db
-| imp_best r db b conf r' db' : imported g gp tag r db -> valid_add r b conf ->
-                                write_logs r db b (r_best r) = Some db' -> add_block r b conf true = Some r' ->
-                                imported g gp tag r' db'.
-Definition logdb_tracks_canonical_statement : Prop :=
-  forall g gp tag r db, num_of g = 0 -> imported g gp tag r db ->
-    forall st, is_path r (r_best r) st -> rows_of_path r st = Some db.
+(* 4. C15 first sentence: after EVERY import history — any tree, any sequence of best changes (to higher, equal or
+      lower blocks, back and forth), blocks with and without logs, different logs at equal positions on siblings —
+      where each block that becomes best goes through writeLogs against the previous best and then AddBlock, the two
+      tables are exactly what writing the blocks of the canonical chain, oldest first, into empty tables produces
+      (rows_of_path: same block ids, times, tx ids, origins, clause / tx / log positions; nothing from abandoned
+      branches).  Proof: Exclude both ways is the split of the two paths at the fork point (Chain/ProofsPath.v);
+      Truncate at the first old-branch block forgets exactly the old branch; every later write lies above all stored
+      keys of lower blocks, so INSERT OR IGNORE never meets a stale row. *)
+Theorem logdb_tracks_canonical g gp tag r db : num_of g = 0 -> imported g gp tag r db ->
+  forall st, is_path r (r_best r) st -> rows_of_path r st = Some db.
+Proof. intros Hg I. exact (logdb_tracks_canonical_lemma g gp tag Hg r db I). Qed.
+
+(* the canonical path exists and is unique, so the statement is not vacuous in `st` *)
+Theorem canonical_path_exists g gp tag r db : num_of g = 0 -> imported g gp tag r db -> exists st, is_path r (r_best r) st.
+Proof.
+  intros Hg I. pose proof (reachable_wf _ _ _ _ _ Hg (imported_reachable _ _ _ _ _ I)) as W.
+  exact (path_exists g gp r W (r_best r) (w_best _ _ _ W)).
+Qed.
 
 (* non-vacuity: the example history of Chain/Examples.v (tx 1001 with logs on both siblings at height 2, then a
    reorganisation to the sibling branch) imported through write_logs: the table holds the sibling's rows only, and
@@ -126,3 +121,5 @@ Print Assumptions filter_is_subsequence_events.
 Print Assumptions filter_is_subsequence_transfers.
 Print Assumptions insert_or_ignore_partial.
 Print Assumptions truncate_then_insert_partial.
+Print Assumptions logdb_tracks_canonical.
+Print Assumptions canonical_path_exists.
